@@ -71,10 +71,22 @@ def worker(spec):
         callable_thing = base
         desc = ["base"]
         for d in range(rng.randint(0, 6)):
-            k = rng.choice(["partial", "wraps", "method", "classmethod", "staticmethod", "boundmethod", "wraps2"])
+            k = rng.choice(["partial", "wraps", "method", "classmethod", "staticmethod", "boundmethod", "wraps2",
+                            "named_partial"])
             inner = callable_thing
             if k == "partial":
                 thing = functools.partial(inner, *([1] if rng.random() < 0.3 else []))
+                callable_thing = thing
+            elif k == "named_partial":
+                # a partial dressed up with functools.update_wrapper: its __wrapped__ names either what it
+                # really calls or (to borrow a public name/docstring) some other function
+                def public_stub(*a, **kw):
+                    raise AssertionError("the stub never runs")
+                dressed = inner if rng.random() < 0.5 else public_stub
+                try:
+                    thing = functools.update_wrapper(functools.partial(inner), dressed)
+                except AttributeError:
+                    continue
                 callable_thing = thing
             elif k in ("wraps", "wraps2"):
                 def mkw(inner):
